@@ -346,9 +346,14 @@ Definition nonempty (s : bytes) : bool := match s with [] => false | _ => true e
 Definition field_ok (b : bytes) (kv : bytes * bytes) : bool :=
   name_ok (fst kv) && negb (occurs (delimiter b) (snd kv)).
 
+(* extra Content-Disposition parameters: keys are header-safe and contain no '=', values carry
+   no control bytes (the handler still finds name and filename first) *)
+Definition extra_ok (kv : list (bytes * bytes)) : bool :=
+  params_ok kv && forallb (fun p => forallb valid_hv (fst p)) kv.
+
 Definition file_ok (sniff : bytes -> bytes) (b : bytes) (f : file_upload) : bool :=
   nonempty (f_param f) && nonempty (f_name f) &&
-  match f_extra f with [] => true | _ => false end &&
+  extra_ok (f_extra f) &&
   name_ok (f_param f) && name_ok (f_name f) &&
   forallb valid_hv (effective_ctype sniff f) &&
   negb (occurs (delimiter b) (f_content f)).
@@ -361,22 +366,28 @@ Proof.
 Qed.
 
 Lemma file_cd_shape f :
-  nonempty (f_param f) = true -> nonempty (f_name f) = true -> f_extra f = [] ->
-  file_cd f = bs "form-data" ++ cd_params [(bs "name", f_param f); (bs "filename", f_name f)].
+  nonempty (f_param f) = true -> nonempty (f_name f) = true ->
+  file_cd f = bs "form-data" ++
+              cd_params ((bs "name", f_param f) :: (bs "filename", f_name f) :: f_extra f).
 Proof.
-  intros H1 H2 H3. unfold file_cd. rewrite H3.
+  intros H1 H2. unfold file_cd.
   destruct (f_param f); [discriminate|]. destruct (f_name f); [discriminate|]. reflexivity.
 Qed.
 
 Lemma view_file sniff f :
-  nonempty (f_param f) = true -> nonempty (f_name f) = true -> f_extra f = [] ->
+  nonempty (f_param f) = true -> nonempty (f_name f) = true -> extra_ok (f_extra f) = true ->
   name_ok (f_param f) = true -> name_ok (f_name f) = true ->
   view_part (file_part sniff f) = Some (file_view sniff f).
 Proof.
   intros H1 H2 H3 H4 H5. unfold view_part, file_part, file_headers. cbn [p_headers p_body assoc].
   change (bytes_eqb cd_key cd_key) with true. cbv iota.
   rewrite file_cd_shape by assumption.
-  rewrite parse_cd_params by (cbn [params_ok forallb fst snd]; rewrite H4, H5; reflexivity).
+  unfold extra_ok in H3. apply andb_prop in H3 as (H3 & H3').
+  rewrite parse_cd_params
+    by (unfold params_ok in *; cbn [forallb fst snd]; rewrite H4, H5, H3; reflexivity).
+  cbn [assoc]. change (bytes_eqb (bs "name") (bs "name")) with true.
+  change (bytes_eqb (bs "name") (bs "filename")) with false.
+  change (bytes_eqb (bs "filename") (bs "filename")) with true. cbv iota.
   unfold file_view. f_equal. f_equal.
   destruct (is_blank (effective_ctype sniff f)); cbn [assoc].
   - reflexivity.
@@ -404,13 +415,14 @@ Lemma file_part_ok sniff b f : file_ok sniff b f = true -> part_ok b (file_part 
 Proof.
   unfold file_ok. intro H.
   repeat (apply andb_prop in H as (H & ?)).
-  destruct (f_extra f) eqn:Ex; [|discriminate].
+  match goal with He : extra_ok _ = true |- _ => unfold extra_ok in He; apply andb_prop in He as (Hx1 & Hx2) end.
   unfold part_ok, file_part, file_headers. cbn [p_headers p_body forallb].
   match goal with Ho : negb (occurs _ _) = true |- _ => rewrite Ho end.
   rewrite Bool.andb_true_r.
   assert (header_ok (cd_key, file_cd f) = true) as Hcd.
   { unfold header_ok. cbn [fst snd]. change (mem_byte ":"%byte cd_key) with false. cbn [negb andb].
-    rewrite file_cd_shape by assumption. rewrite !forallb_app, cd_params_valid by reflexivity.
+    rewrite file_cd_shape by assumption.
+    rewrite !forallb_app, cd_params_valid by (cbn [forallb fst]; rewrite Hx2; reflexivity).
     reflexivity. }
   rewrite Hcd. destruct (is_blank (effective_ctype sniff f)); [reflexivity|].
   cbn [forallb]. rewrite Bool.andb_true_r. unfold header_ok. cbn [fst snd].
@@ -461,7 +473,7 @@ Proof.
       intros kv H. apply view_field. unfold field_ok in H. now apply andb_prop in H as (H & _).
     + apply map_opt_map with (P := file_ok sniff b); [|exact Hg].
       intros f H. unfold file_ok in H. repeat (apply andb_prop in H as (H & ?)).
-      destruct (f_extra f) eqn:Ex; [|discriminate]. now apply view_file.
+      now apply view_file.
   - rewrite forallb_app. apply andb_true_intro. split.
     + apply forallb_map_impl with (P := field_ok b); [apply field_part_ok|exact Hf].
     + apply forallb_map_impl with (P := file_ok sniff b); [apply file_part_ok|exact Hg].
